@@ -65,6 +65,18 @@ def generate(rng, tier, seed):
                             if int.from_bytes(v[:b], "big") != 8 * ln:
                                 c.fail("method 3 length block wrong")
                     yield c
+    # block sizes well beyond the cipher sizes (the property speaks of every block size): around 16/17, 32, the 255/256/257 boundaries of
+    # one-byte arithmetic and of small-integer identity, and a few hundred; lengths empty, one byte, one short of / exactly / one over a block, two blocks
+    for b in (17, 31, 32, 33, 64, 255, 256, 257, 258, 300, 1000):
+        for ln in sorted({0, 1, b - 1, b, b + 1, 2 * b - 1, 2 * b, 2 * b + 1}):
+            data = rb(rng, ln) if ln % 3 else bytes(ln)
+            for m in (1, 2, 3):
+                c = Case(f"pad_iso_{m}:large-block-size", {"bs": b, "len": ln})
+                r = c.call(f"mac.pad_iso_{m}", data, b)
+                i = c.line(f"spec.pad\ti:{m}\t{enc_b(data)}\ti:{b}")
+                c.pred("padding equals ISO 9797-1 specification (large block size)",
+                       lambda rep, r=r, i=i: None if (r.ok and rep[i] == "ok\t" + enc_b(r.value)) else f"{'raised ' + r.err if not r.ok else 'differs: ' + str(len(r.value)) + ' bytes'}")
+                yield c
     # method 3 at the edge of its restriction (bit length just fits / just does not fit the length block) and long messages at
     # buffer-size boundaries for all three methods
     edge = []
